@@ -4,7 +4,7 @@ that statement can no longer execute (`if false { return Err(..); }`), splice AL
 and run Verus once. A mutant on which every obligation still verifies is a check whose removal no contract notices
 (printed as MISSED, with file:line); mutants that no longer compile / fit the dialect are listed as INVALID.
 Usage: tools/check_deletion_sweep.py [-j N] [file ...]      (never touches /repo; scratch copies under /var/tmp)
-Writes seeded/SWEEP.txt."""
+Writes sweeps/SWEEP*.txt."""
 import os, re, sys, shutil, subprocess, tempfile, json, concurrent.futures
 
 VERIF = os.path.dirname(os.path.dirname(os.path.abspath(__file__)))
@@ -126,7 +126,7 @@ def main():
             if r:
                 res.append(r)
                 print("%-12s %s:%d %s  | %s | %s" % (r[3], r[0], r[1], r[2], r[4], r[5]), flush=True)
-    with open(os.path.join(VERIF, "seeded", out_name), "w") as fh:
+    with open(os.path.join(VERIF, "sweeps", out_name), "w") as fh:
         for r in res:
             fh.write("%-17s %s:%d %s | %s | %s\n" % (r[3], r[0], r[1], r[2], r[4], r[5]))
         from collections import Counter
